@@ -9,7 +9,9 @@ L5 model for C14: derived attributes.
 * expression trees over component ids, constants and an arbitrary binary operator;
 * the component table of a `Data` object (ordered dict), `Data.__getitem__` on derived components,
   `remove_component` with its recursion as coded, `reorder_components` as coded (the table order is
-  the real component order), `update_id` as coded + the F14 repair;
+  the real component order), `update_id` as coded + the F14 repair; the public calls as repaired by
+  F20 / F21 / F22 (`removeCall`, `addComp`, `updateIdCall`: `none` = the `ValueError` raised before
+  anything changes) and the call state machine `implCall` / `specCall` of the history family;
 * the text-expression grammar of the `ParsedCommand` family (tokens, printer, parser, evaluator).
 
 Core Lean only.  `Impl` = the functions named after the Python code, `Spec` = `spec*`.
@@ -564,9 +566,9 @@ def specReorder (t : Table κ ω α) (ks : List κ) : Option (Table κ ω α) :=
 
 /-! ### `update_id` -/
 
-/-- **Impl**: `Data.update_id(old, new)`: the key is replaced in place through
-`OrderedDict(...)`; as repaired (F14) every derived component's link has `old` replaced by `new`.
-`repaired = false` is the code as found. -/
+/-- **Impl**: the body of `Data.update_id(old, new)` (behind the refusal test of `updateIdCall`):
+the key is replaced in place through `OrderedDict(...)`; as repaired (F14) every derived component's
+link has `old` replaced by `new`.  `repaired = false` is the code as found. -/
 def updateId (repaired : Bool) (t : Table κ ω α) (old new : κ) : Table κ ω α :=
   if new = old then t else
   if t.keys.contains old then
@@ -663,6 +665,14 @@ def implCall (t : Table κ ω α) : Call κ ω α → Option (Table κ ω α)
   | .update o n => updateIdCall t o n
   | .reorder pref ex => reorderComps t (reorderArg t pref ex)
 
+/-- **Spec** of storing a component under an identifier: a new identifier is appended, an
+identifier in use keeps its place and gets the new component — refused when that would replace a
+coordinate component, install one, or turn a derived component into a regular one or back. -/
+def specSet (t : Table κ ω α) (k : κ) (c : Comp κ ω α) : Option (Table κ ω α) :=
+  match t.find k with
+  | some cur => if kindClash cur c then none else some (t.set k c)
+  | none => some (t.set k c)
+
 /-- **Spec** of one call.  Adding sets the entry (refused on a missing input of a checked link, or
 on an identifier in use for another kind of component); removal deletes exactly the dependency
 closure (refused for a coordinate component, nothing for an unknown identifier); replacing an
@@ -671,15 +681,10 @@ identifier renames it everywhere — keys and defining expressions — and chang
 in the requested order (refused unless the list is a rearrangement of the identifiers). -/
 def specCall (t : Table κ ω α) : Call κ ω α → Option (Table κ ω α)
   | .add k c =>
-    if (match c.fromIds with | some fs => fs.all t.keys.contains | none => true) then
-      match t.find k with
-      | some cur => if kindClash cur c then none else some (t.set k c)
-      | none => some (t.set k c)
-    else none
-  | .addRaw k c =>
-    match t.find k with
-    | some cur => if kindClash cur c then none else some (t.set k c)
-    | none => some (t.set k c)
+    match c.fromIds with
+    | some fs => if fs.all t.keys.contains then specSet t k c else none
+    | none => specSet t k c
+  | .addRaw k c => specSet t k c
   | .remove k =>
     match t.find k with
     | some c =>
